@@ -2,6 +2,30 @@
 the evidence texts (rule, assumptions)."""
 
 PLAN = {
+    "C08": {
+        "quick": [
+            {"kind": "rapid", "test": "TestC08Compose", "checks": 40000},
+        ],
+        "thorough": [
+            {"kind": "rapid", "test": "TestC08Compose", "checks": 150000, "shards": 16},
+        ],
+    },
+    "C15": {
+        "quick": [
+            {"kind": "rapid", "test": "TestC15Errorf", "checks": 100000},
+        ],
+        "thorough": [
+            {"kind": "rapid", "test": "TestC15Errorf", "checks": 400000, "shards": 16},
+        ],
+    },
+    "C16": {
+        "quick": [
+            {"kind": "rapid", "test": "TestC16Routes", "checks": 50000},
+        ],
+        "thorough": [
+            {"kind": "rapid", "test": "TestC16Routes", "checks": 200000, "shards": 16},
+        ],
+    },
     "C11": {
         "quick": [
             {"kind": "enum", "test": "TestEnumC11Runes", "env": {"VERIF_RUNE_STEP": 1}, "timeout": 600},
@@ -113,6 +137,9 @@ PLAN = {
 }
 
 RULES = {
+    "C08": "rapid: histories of 1-6 steps starting from a library-produced redactable r0 (Sprint/Sprintf of generated operands: envelopes, line feeds, escaped markers, empty); each step applies one of 31 re-print / join / container compositions (Sprint, Sprint of ToBytes, Sprintf with literals around any directive except %T/%p incl. flags, width, precision, '*', odd verbs; reflect.ValueOf; Safe(); Join/JoinTo with safe or unsafe delimiters on a builder and on a SafePrinter; StringBuilder.Print/Printf; printing a StringBuilder by value and by pointer; SafePrinter.Print/Printf; []RedactableString, [2]RedactableString, []interface{}, map values, struct fields exported / unexported / interface-typed, pointer to struct, %+v, %#v) and the result becomes the next r. Oracle per step: the result equals the literal concatenation of its pieces (identity for re-printing), and Redact / StripMarkers applied to the result equal the concatenation of their application to the pieces. Non-trivial = the redactable contains an envelope, an escaped marker or a line feed and the step is not bare %v/Sprint. Distinct = distinct specs (64-bit fingerprint).",
+    "C15": "rapid: structured formats with 0-4 directives, each %w with probability 1/2 (flags, width, precision, '*'), operands at %w positions drawn from {error value, pointer error, errors.New, named-kind errors, wrapping error, nil-receiver error, error+Stringer, error+SafeFormatter, error+SafeMessager, Safe(err), Unsafe(err), untyped nil, string, int, Stringer, struct, missing}; other operands from the full or the fmt-compatible universe; optional error hook. Oracle: (E) returned error by the statement (sequential model: the first %w with an error operand is captured, any misuse clears it for good); (T1) no %w => text == Sprintf; (T2) text == per-directive Sprintf with the correct %w printed as %v and every other %w as the bad-verb report; (T3) for at most one %w and fmt-compatible operands: stripped text == fmt.Errorf(...).Error() escaped and error == errors.Unwrap. Non-trivial = at least one %w. Distinct = distinct specs (64-bit fingerprint).",
+    "C16": "rapid: an argument list (full value universe, registered types, optional error hook) with a structured or chaotic format, printed through Sprint/Sprintf (reference), Fprint/Fprintf into a recording writer that succeeds, fails or writes short, HelperForErrorf (formats without %w), and embedded between 0-5 generated prefix and 0-4 suffix writer ops on a StringBuilder, on the SafePrinter of Sprintfn and on the SafePrinter of a SafeFormat method. Oracle: F variant = exactly one Write with the S variant's bytes and (n, err) as returned by the writer; embedded routes equal prefix-alone + S variant + suffix-alone after merging adjacent envelopes. Non-trivial = at least two operands or a non-basic operand, and the prefix leaves an envelope open or unescaped bytes pending in the outer buffer (observed through the hook). Distinct = distinct specs (64-bit fingerprint).",
     "C11": "enumeration: all 2048 surrogates plus negative / out-of-range / boundary runes x every rune-taking method x 5 buffer-state classes (empty, open envelope, after safe text, after pre-redactable text, pending partial UTF-8) x 4 implementations; rapid: (a) histories prefix + one edge call (any int32 rune, any byte 0..255, arbitrary byte strings) + suffix on StringBuilder, ManualBuffer, Sprintfn and SafeFormat printers: no panic, line-safe, text before and after intact; (b) JoinTo with non-slice operands of 25 kinds (int, nil, string, array, map, pointer, chan, func, struct, typed nils, wrappers): no panic, output = printing the value as-is; (c) print cases over all routes / full universe / chaotic formats / configurations: a panic may escape only if a panic is raised while printing a panic payload; (d) a method panicking (String, Error, GoString, SafeMessage, Format, SafeFormat, error hook; after 0-4 ops of partial output; payload string/error/SafeString/int/nested panicker; top level, under Unsafe(), inside a slice) between generated text: the output must equal text-before + partial output + %!verb(PANIC=<method> method: <payload>) + text-after. Non-trivial = an edge value, a non-slice operand, a chaotic format, nil operand or a panicking method is involved. Distinct = distinct specs (64-bit fingerprint).",
     "C14": "enumeration: the complete product 32 flag subsets x 8 widths {absent,1,7,12,1000,*=-7,*=0,*=5} x 7 precisions {absent,'.',0,1,5,*=0,*=3} x 56 verbs (all ASCII letters, e-acute, cross, start marker, invalid byte) x 13 operand kinds (1.4M evaluations), each under fmt's State and under redact's printer; rapid: directives outside the grid (widths 1..300, star values -40..40, precisions 0..40). Non-trivial = any directive other than bare %v. Distinct = distinct (directive, star values, operand kind).",
     "C02": "rapid: a shape (route x format x operand tree x registered types x optional error hook) with two instantiations A, B of its unsafe leaves, B derived from A by construction: every non-LF rune of an unsafe string is replaced by a freshly drawn one (markers, multi-byte runes included), run lengths may change when the consuming directive has no width/precision; byte slices and StringBuilder payloads keep their encoded length; bools, floats, complex always redrawn; integers redrawn in structured formats (zero-ness kept: it is 'emptiness' under a zero precision; shared under %c, which can print a line feed) and shared in chaotic formats (any may feed a '*'); map keys keep their relative order; public parts (literals, safe types, Safe()-wrapped, registered, star operands) are shared and free of pointers. Oracle: Redact(A) == Redact(B) byte for byte, both panic or neither, and a private-use rune tagged onto A's unsafe leaves never survives redaction. Non-trivial = the two unredacted outputs differ and the case is not bare top-level %v of basic values. Distinct = distinct specs (64-bit fingerprint). The class histogram counts (operand kind x verb) pairs.",
@@ -140,6 +167,24 @@ HOOK_COMMITS = ["cf350cc"]
 NOT_APPLICABLE = {}
 
 CLAIMS = {
+    "C08": {
+        "text": "Inductive closure under composition is checked on generated histories of print-then-reprint / join / embed steps over library-produced redactables: every step must be the literal concatenation of its pieces (identity for plain re-printing under any directive), and Redact/StripMarkers must distribute over it. Exploration; 40k histories per quick run, 2.4M per thorough run.",
+        "design_ref": "DESIGN.md §4.8",
+        "note": "Container expectations for %v/%+v come from a hand model of fmt's brackets, spaces and field names; for %#v only containment and the distribution laws are claimed. %T/%p are excluded as the property says; %w is excluded for StringBuilder operands (a builder is not an error).",
+        "technique": "rapid property-based testing over generated composition histories; round-trip identity and concatenation/homomorphism laws",
+    },
+    "C15": {
+        "text": "Generated formats with several %w and every operand class at the %w positions, judged by an executable reading of the statement (sequential capture model), by composition over Sprintf and by a differential against fmt.Errorf + errors.Unwrap. Exploration; found and repaired F7 (misuse through operands that bypass method dispatch).",
+        "design_ref": "DESIGN.md §4.15",
+        "note": "'#' and '+' on a %w directive are excluded from the 'renders like %v' clause (fmt itself rewrites these flags only for a literal %v); RedactableString operands at %w positions are outside the domain (C08 says they print unchanged under any verb).",
+        "technique": "rapid property-based testing: statement model + composition over Sprintf + differential against fmt.Errorf",
+    },
+    "C16": {
+        "text": "Cross-route differential on generated argument lists: the S variant is the reference; the F variant must deliver the same bytes in one Write and report the writer's (n, err) for succeeding, failing and short-writing writers; the builder and nested-printer routes are embedded between generated writer ops so that the outer buffer is in every state (open envelope, pending bytes, raw tail) and must agree up to merging of adjacent envelopes. Exploration.",
+        "design_ref": "DESIGN.md §4.16",
+        "note": "Equality for the embedded routes is modulo merging of adjacent envelopes and empty envelopes, as the property states.",
+        "technique": "rapid property-based cross-implementation differential testing with a fault-injecting io.Writer",
+    },
     "C11": {
         "text": "Every parameter of the writing API is driven over its whole type (all surrogates exhaustively, any int32 rune, any byte, arbitrary byte strings) in every buffer state and implementation; JoinTo over non-slice kinds; the full print universe with panicking user programs. Oracles: absence of panic (except the fmt-conformant propagation of a panic raised while printing a panic payload), line-safety, and a composition model that pins the exact text around a contained panic. Exploration; found and repaired F1 (invalid runes), F2 (JoinTo), F9 (nested printer).",
         "design_ref": "DESIGN.md §4.11",
